@@ -197,7 +197,10 @@ def lib_deepcopy(ip, st, pos, kws):
     from .sym import ValCell, LstCell, PyListCell, Tup, Opaque
     v = pos[0]
     ip.assumptions.add("library contract (tier A): copy.deepcopy returns an equal value sharing no mutable object with its argument")
-    return [(st, _deep(ip, st, v))]
+    r = _deep(ip, st, v)
+    if isinstance(r, Ref):
+        st.notes["deep_copies"] = set(st.notes.get("deep_copies", ())) | {r.cid}
+    return [(st, r)]
 
 
 def _deep(ip, st, v):
@@ -237,6 +240,7 @@ def lib_islice(ip, st, pos, kws):
 
 
 LIB = {("itertools", "islice"): lib_islice, ("copy", "deepcopy"): lib_deepcopy, "deepcopy": lib_deepcopy,
+       ("copy", "copy"): lambda ip, st, pos, kws: [(st, _deep(ip, st, pos[0]))],        # a new top-level object, NOT a deep copy
        ("pickle", "dump"): lib_pickle_dump, "pickle.dump": lib_pickle_dump,
        ("pickle", "load"): lib_pickle_load, "pickle.load": lib_pickle_load,
        ("os", "replace"): lib_os_replace, ("os", "rename"): lib_os_replace, ("os", "remove"): lib_os_remove,
